@@ -1,15 +1,20 @@
 /-
-Driver glue for M-Layer.  Not part of the proved core.
+Driver glue for M-Layer / M-Layers.  Not part of the proved core.
+
+One font = named layers + the name of the default layer.  `(init disk)` opens a font with one layer (C07's
+cases); `(initf default ((name disk) …))` opens several.  An operation line is either a plain M-Layer
+operation — it goes through the Font API, i.e. to the default layer — or `(on L op)`.  Every answer carries
+the snapshot of the layer the line addressed.
 -/
 import DefconModel.Util.SExp
-import DefconModel.Layer
+import DefconModel.Layers
 
 namespace DefconModel
 namespace Layer
 open SExp
 
 structure DState where
-  s : State := {}
+  fs : Layers.FState := { layers := [("", {})], default := "" }
   maskOutlines : Bool := false
 
 def parseRec : SExp → Option GRec
@@ -25,6 +30,8 @@ def parseOp : SExp → Option Op
   | .list [.atom "delete", n] => do some (.delete (← asStr? n))
   | .list [.atom "rename", o, n] => do some (.rename (← asStr? o) (← asStr? n))
   | .list [.atom "setUnicodes", n, us] => do some (.setUnicodes (← asStr? n) (← asListOf? asNat? us))
+  | .list [.atom "setUnicode", n, v] => do some (.setUnicode (← asStr? n) (← asOpt? asNat? v))
+  | .list [.atom "reload", n, r] => do some (.reload (← asStr? n) (← parseRec r))
   | .list [.atom "edit", n, cs, img, ol, ofast] => do
     some (.edit (← asStr? n) (← asListOf? asStr? cs) (← asOpt? asStr? img) (← asBool? ol) (← asBool? ofast))
   | .list [.atom "save"] => some .save
@@ -37,40 +44,124 @@ def setOf (xs : List SExp) : SExp := tagged "set" xs
 def encPairs (ps : List (String × String)) : SExp :=
   setOf (ps.eraseDups.map fun p => .list [.str p.1, .str p.2])
 
-def snapshot (d : DState) : List SExp :=
-  [ tagged "keys" [setOf ((visible d.s).map .str)],
-    tagged "comps" [encPairs (componentReferences d.s)],
-    tagged "images" [encPairs (imageReferences d.s)],
-    tagged "outlines" [if d.maskOutlines then .atom "masked" else setOf ((glyphsWithOutlines d.s).eraseDups.map .str)],
-    tagged "uni" [match d.s.uni with
+def snapshotOf (mask : Bool) (s : State) : List SExp :=
+  [ tagged "keys" [setOf ((visible s).map .str)],
+    tagged "comps" [encPairs (componentReferences s)],
+    tagged "images" [encPairs (imageReferences s)],
+    tagged "outlines" [if mask then .atom "masked" else setOf ((glyphsWithOutlines s).eraseDups.map .str)],
+    -- names under one code point as a MULTISET (the protocol's `set` only sorts): a name listed twice shows
+    tagged "uni" [match s.uni with
       | none => .atom "none"
       | some m => setOf (m.map fun p => .list [ofNat p.1, setOf (p.2.map .str)])] ]
+
+def snapshot (d : DState) (l : String) : List SExp :=
+  match AL.get? d.fs.layers l with
+  | some s => snapshotOf d.maskOutlines s
+  | none => [.atom "no-such-layer"]
+
+def parseDisk (gs : List SExp) : Option (List (String × GRec)) :=
+  gs.mapM (fun g => match g with
+    | .list [n, r] => do some ((← asStr? n), (← parseRec r))
+    | _ => none)
+
+/-- all-or-nothing execution of several model operations on layer `l` -/
+def seqOn (d : DState) (l : String) (ops : List Op) : Option DState :=
+  match AL.get? d.fs.layers l with
+  | none => none
+  | some s0 =>
+    match ops.foldlM (fun s op => match step s op with | .ok s' => some s' | .error _ => none) s0 with
+    | some s' => some { d with fs := { d.fs with layers := AL.set d.fs.layers l s' } }
+    | none => none
+
+/-- one line addressed to layer `l` (`viaFont`: through the Font API; the model is the same, the layer is the
+default one) -/
+def lineOn (d : DState) (l : String) (line : SExp) : DState × SExp :=
+  match AL.get? d.fs.layers l with
+  | none => (d, .atom "bad-op")
+  | some s =>
+    match line with
+    | .list (.atom "seq" :: lines) =>
+      match lines.mapM parseOp with
+      | none => (d, .atom "bad-op")
+      | some ops =>
+        match seqOn d l ops with
+        | some d' => (d', .list (.atom "ok" :: snapshot d' l))
+        | none => (d, .list (err "KeyError" :: snapshot d l))
+    | .list [.atom "fwd", n] =>
+      match asStr? n with
+      | none => (d, .atom "bad-op")
+      | some n =>
+        let v := Layers.fwdOn (Layers.stepOn d.fs l .touchUni) l n
+        let d' := { d with fs := Layers.step d.fs (.fwdOn l n) }
+        (d', .list (.list [.atom "ok", ofOpt ofNat v] :: snapshot d' l))
+    | .list [.atom "pseudo", n] =>
+      match asStr? n with
+      | none => (d, .atom "bad-op")
+      | some n =>
+        let v := Layers.pseudoOn (Layers.stepOn d.fs l .touchUni) l n
+        let d' := { d with fs := Layers.step d.fs (.pseudoOn l n) }
+        (d', .list (.list [.atom "ok", ofOpt ofNat v] :: snapshot d' l))
+    | .list [.atom "rev", c] =>
+      match asNat? c with
+      | none => (d, .atom "bad-op")
+      | some c =>
+        let d' := { d with fs := Layers.stepOn d.fs l .touchUni }
+        let m := ((AL.get? d'.fs.layers l).bind (·.uni)).getD []
+        let ans := match glyphNameForUnicode m c with
+          | none => SExp.atom "none"
+          | some _ => SExp.atom "member"
+        (d', .list (.list [.atom "ok", ofBool (hasCode m c), ans] :: snapshot d' l))
+    | _ =>
+      match parseOp line with
+      | none => (d, .atom "bad-op")
+      | some op =>
+        match step s op with
+        | .ok s' =>
+          let d' := { d with fs := { d.fs with layers := AL.set d.fs.layers l s' } }
+          (d', .list (.atom "ok" :: snapshot d' l))
+        | .error .keyError => (d, .list (err "KeyError" :: snapshot d l))
 
 def driverStep (d : DState) (line : SExp) : DState × SExp :=
   match line with
   | .list [.atom "init", .list gs] =>
-    match gs.mapM (fun g => match g with
-        | .list [n, r] => do some ((← asStr? n), (← parseRec r))
+    match parseDisk gs with
+    | none => (d, .atom "bad-op")
+    | some disk =>
+      let d' := { d with fs := Layers.opened [("", disk)] "" }
+      (d', .list (.atom "ok" :: snapshot d' ""))
+  | .list [.atom "initf", dflt, .list ls] =>
+    match asStr? dflt, ls.mapM (fun l => match l with
+        | .list [n, .list gs] => do some ((← asStr? n), (← parseDisk gs))
         | _ => none) with
-    | none => (d, .atom "bad-op")
-    | some disk => let d' := { d with s := opened disk }; (d', .list (.atom "ok" :: snapshot d'))
+    | some dn, some layers =>
+      let d' := { d with fs := Layers.opened layers dn }
+      (d', .list (.atom "ok" :: snapshot d' dn))
+    | _, _ => (d, .atom "bad-op")
   | .list [.atom "mask", .atom "outlines"] => ({ d with maskOutlines := true }, .atom "ok")
-  | .list (.atom "seq" :: lines) =>
-    -- several model operations for one operation of the implementation (a reload = read + new unicodes + new content):
-    -- all or nothing, one snapshot
-    match lines.mapM parseOp with
+  | .list [.atom "on", l, inner] =>
+    match asStr? l with
     | none => (d, .atom "bad-op")
-    | some ops =>
-      match ops.foldlM (fun s op => match step s op with | .ok s' => some s' | .error _ => none) d.s with
-      | some s' => let d' := { d with s := s' }; (d', .list (.atom "ok" :: snapshot d'))
-      | none => (d, .list (err "KeyError" :: snapshot d))
-  | _ =>
-    match parseOp line with
+    | some l => lineOn d l inner
+  | .list [.atom "setDefault", l] =>
+    match asStr? l with
     | none => (d, .atom "bad-op")
-    | some op =>
-      match step d.s op with
-      | .ok s' => let d' := { d with s := s' }; (d', .list (.atom "ok" :: snapshot d'))
-      | .error .keyError => (d, .list (err "KeyError" :: snapshot d))
+    | some l =>
+      if AL.contains d.fs.layers l then
+        let d' := { d with fs := Layers.step d.fs (.setDefault l) }
+        (d', .list (.atom "ok" :: snapshot d' l))
+      else (d, .atom "bad-op")
+  | .list [.atom "newLayer", l] =>
+    match asStr? l with
+    | none => (d, .atom "bad-op")
+    | some l =>
+      if AL.contains d.fs.layers l then (d, .atom "bad-op")
+      else
+        let d' := { d with fs := Layers.step d.fs (.newLayer l) }
+        (d', .list (.atom "ok" :: snapshot d' l))
+  | .list [.atom "save"] =>
+    let d' := { d with fs := Layers.step d.fs .save }
+    (d', .list (.atom "ok" :: snapshot d' d'.fs.default))
+  | _ => lineOn d d.fs.default line
 
 end Layer
 end DefconModel
